@@ -190,7 +190,7 @@ CHECKS = {
         "floor": {"quick": 1000, "thorough": 20000},
         "shrink": False,
         "replay_runs": 10,
-        "rule": "rapid draws a prior history (data only in the journal / in tables / compaction pending / open transaction / live snapshots) and 1-5 lifecycle scenes: a second Open while open (must fail with the storage's lock error); Close then Open(ReadOnly) - also with a buffer flush forced to be pending at Close - all model data must be served, Put/Delete/Write/CompactRange/OpenTransaction must return ErrReadOnly and the storage log must show no create/write/sync/remove/rename/setmeta; SetReadOnly on the live DB, drain background work (VerifWaitIdleRO), up to 3000 further reads, drain again: no further mutation, reads match the model; every public method after Close returns ErrClosed (iterators/snapshots/transactions their own errors), nothing touches storage, second Close is ErrClosed, the lock is free; released snapshots/iterators report their 'released' errors; Get/Has/GetSnapshot/GetProperty racing with Close return the normal result or ErrClosed and Close returns. A second search (TestC18S) runs generated put/delete/second-open/close-reopen/read-only-session programs on the repository's own storages (storage.OpenFile in a fresh temporary directory, storage.NewMemStorage): a second leveldb.Open and a second OpenFile (either mode) on an owned storage must fail, the storage must be available again after Close with all data, a read-only OpenFile + Open(ReadOnly) session must serve all data, reject Put/CompactRange with ErrReadOnly, exclude a read-write OpenFile, and leave the directory byte-for-byte unchanged (names, sizes, SHA-1). "
+        "rule": "rapid draws a prior history (data only in the journal / in tables / compaction pending / open transaction / live snapshots) and 1-5 lifecycle scenes: a second Open while open (must fail with the storage's lock error); Close then Open(ReadOnly) - also with a buffer flush forced to be pending at Close - all model data must be served, Put/Delete/Write/CompactRange/OpenTransaction must return ErrReadOnly and the storage log must show no create/write/sync/remove/rename/setmeta; SetReadOnly on the live DB, drain background work (VerifWaitIdleRO), up to 3000 further reads, drain again: no further mutation, reads match the model; every public method after Close returns ErrClosed (iterators/snapshots/transactions their own errors), nothing touches storage, second Close is ErrClosed, the lock is free; released snapshots/iterators report their 'released' errors; Get/Has/GetSnapshot/GetProperty racing with Close return the normal result or ErrClosed and Close returns. A second search (TestC18S) runs generated put/delete/second-open/close-reopen/read-only-session programs on the repository's own storages (storage.OpenFile in a fresh temporary directory, storage.NewMemStorage): a second leveldb.Open and a second OpenFile (either mode) on an owned storage must fail, the storage must be available again after Close with all data, a read-only OpenFile + Open(ReadOnly) session must serve all data, reject Put/CompactRange with ErrReadOnly, exclude a read-write OpenFile, and leave the directory byte-for-byte unchanged (names, sizes, SHA-1) - also when a pending CURRENT.<n> from an interrupted manifest switch lies next to CURRENT. A third of the directory cases open the DB with leveldb.OpenFile (the DB owns the storage); a faultclose step hides the table files, lets a compaction fail, calls Close while it is retried and puts the files back: Close may report the error but the directory must be available again with all data. "
                 "Non-trivial: read-only open with data in the journal, >=8 methods exercised after Close, or a SetReadOnly scene.",
         "level_text": "Exploration over generated histories x scene scripts; the mutation oracle is exact (every storage call is logged).",
         "level_note": "Trusted: vfs log; VerifWaitIdleRO hook to define 'background work has drained'. Iterators are released before Close (documented requirement), so NewIterator is not part of the racing set.",
@@ -272,7 +272,7 @@ CHECKS = {
         "floor": {"quick": 1000, "thorough": 30000},
         "shrink": False,
         "replay_runs": 200,
-        "rule": "rapid draws 2-12 concurrent writers x 3-25 writes (Put/Delete/batch; sizes from 0 to 300 KB around the 128 KiB merge limit and the free buffer space; Sync and NoWriteMerge flags), a racer competing for the write lock at a drawn point (Close, OpenTransaction+Discard, CompactRange, SetReadOnly), optionally a journal create/write/sync fault so that a whole group fails, a yield plan on the protocol's channel operations and GOMAXPROCS; 2 schedules per program. Trace invariants: between a lock acquisition and its release/hand-off no other acquisition; acknowledgements sent = writers merged; a refused (too large) writer ends the group with a hand-off and is exactly the next lock holder, otherwise the lock is released exactly once; at most one journal record and one publication per group. Results: every writer call returns within 40 s; a merged writer returns its leader's result; afterwards (after reopen if the racer closed or froze the DB) every acknowledged write is fully readable and every failed write is visible entirely or not at all. "
+        "rule": "rapid draws 2-12 concurrent writers x 3-25 writes (Put/Delete/batch; sizes from 0 to 300 KB around the 128 KiB merge limit and the free buffer space; Sync and NoWriteMerge flags), a racer competing for the write lock at a drawn point (Close, OpenTransaction+Discard, CompactRange, SetReadOnly), optionally a journal create/write/sync fault so that a whole group fails, a yield plan on the protocol's channel operations and GOMAXPROCS; 2 schedules per program. Trace invariants: between a lock acquisition and its release/hand-off no other acquisition; acknowledgements sent = writers merged; a refused (too large) writer ends the group with a hand-off and is exactly the next lock holder, otherwise the lock is released exactly once; at most one journal record and one publication per group; the number of records a group publishes equals the sum of its members' records. Results: every writer call returns within 40 s; a merged writer returns its leader's result; afterwards (after reopen if the racer closed or froze the DB) every acknowledged write is fully readable and every failed write is visible entirely or not at all. "
                 "Non-trivial: the trace has a group with >=2 members and a hand-off.",
         "level_text": "Exploration with sampled rendezvous orders; the trace oracle is exact for the stated protocol.",
         "level_note": "Event order is the order in which the hook's mutex was taken; emission points are placed so that causally ordered protocol steps are logged in causal order.",
